@@ -42,6 +42,14 @@ fn run_print(c: &PrintCase) -> Verdict {
     ensure!(got == format!("Lut{}({})", n, hex), "lowerhex", "{} {{:x}} = {:?}, expected Lut{}({})", fl, got, n, hex);
     let got = lib!("Binary", x.fmt_binary());
     ensure!(got == format!("Lut{}({})", n, bin), "binary", "{} {{:b}} = {:?}, expected Lut{}({})", fl, got, n, bin);
+    // the formatting traits under other format specifications: whatever is done with width,
+    // alignment, `#` or `+`, what is printed (space padding aside) is still Lut<n>(digits)
+    for (kind, base) in [(0usize, &hex), (1, &bin), (2, &hex), (3, &hex), (4, &hex), (5, &bin), (7, &hex)] {
+        let spec = crate::adapter::FMT_SPECS[kind];
+        let got = lib!(format!("formatting with `{}`", spec), x.fmt_spec(kind));
+        let want = format!("Lut{}({})", n, base);
+        ensure!(got.trim_matches(' ') == want, "format-spec", "{} formatted with `{}` = {:?}, expected {} (space padding allowed)", fl, spec, got, want);
+    }
     // parsing the printed table gives it back
     let back = lib!("from_hex_string", c.fam.get().from_hex(n, &hex));
     match back {
@@ -185,7 +193,7 @@ fn enumerate_parse(t: Tier, shard: usize, nshards: usize, f: &mut dyn FnMut(Pars
 pub fn def() -> PropDef {
     PropDef {
         id: "C09",
-        rule: "print: cases = (family, table) n in 0..=12/14; to_hex_string / to_bin_string / Display / {:x} / {:b} are compared with the harness formatter written from the definition (most significant first, width max(1,2^n/4) resp. 2^n, lower case, `Lut<n>(...)`), and parsing the print must give the table back; exhaustive for n<=3 (quick) / n<=4 (thorough). parse: cases = (family, n in 0..=12, string): the print of a generated table with 0, 1 or 2 structured corruptions (replace / insert / delete / append / prepend a character from {+,-,space,g,x,G,X,_,NUL,newline,A-F,multi-byte UTF-8 incl. full-width digits} or a hex digit, at a position weighted towards multiples of 16 and both ends; upper-casing; truncation), random digit strings of the right width, and arbitrary short text. Oracle: the accept set is exactly `width` characters, all ASCII hex digits, value < 2^(2^n); inside it the result must be Ok and denote that number (strings containing upper-case digits may also be rejected); outside it the result must be Err; never a panic. Exhaustive: every 1-character ASCII string for n<=2 and every string over a 20-symbol alphabet {0,1,2,7,8,9,a,f,A,F,g,G,x,+,-,space,NUL,e-acute,euro,emoji} of length <= width+1 for n<=3 (quick) / n<=4 (thorough). Non-trivial = a string within one edit of an accepted one, or an accepted non-zero one.",
+        rule: "print: cases = (family, table) n in 0..=12/14; to_hex_string / to_bin_string / Display / {:x} / {:b} are compared with the harness formatter written from the definition (most significant first, width max(1,2^n/4) resp. 2^n, lower case, `Lut<n>(...)`), the formatting traits under the specifications {:#x}, {:#b}, {:#}, {:>40}, {:<40x}, {:^80b}, {:+} must still print exactly that (space padding aside); and parsing the print must give the table back; exhaustive for n<=3 (quick) / n<=4 (thorough). parse: cases = (family, n in 0..=12, string): the print of a generated table with 0, 1 or 2 structured corruptions (replace / insert / delete / append / prepend a character from {+,-,space,g,x,G,X,_,NUL,newline,A-F,multi-byte UTF-8 incl. full-width digits} or a hex digit, at a position weighted towards multiples of 16 and both ends; upper-casing; truncation), random digit strings of the right width, and arbitrary short text. Oracle: the accept set is exactly `width` characters, all ASCII hex digits, value < 2^(2^n); inside it the result must be Ok and denote that number (strings containing upper-case digits may also be rejected); outside it the result must be Err; never a panic. Exhaustive: every 1-character ASCII string for n<=2 and every string over a 20-symbol alphabet {0,1,2,7,8,9,a,f,A,F,g,G,x,+,-,space,NUL,e-acute,euro,emoji} of length <= width+1 for n<=3 (quick) / n<=4 (thorough). Non-trivial = a string within one edit of an accepted one, or an accepted non-zero one.",
         assumptions: vec![
             "value() is the observation of a parsed table; whether an Ok table has stray bits is checked as `digit too large` through the accept set (and structurally in C02)",
             "upper-case hex digits may be accepted or rejected, as the property allows",
